@@ -18,7 +18,7 @@ Definition wf3b (s : slot3_t) : bool :=
   match s with
   | (Some (Some o), None, None) => is_param o
   | (Some None, None, None) => true
-  | (None, Some (Some o), None) => negb (is_param o)
+  | (None, Some (Some o), None) => true          (* _buffers may hold an nn.Parameter (inside a block, since D131's repair) *)
   | (None, Some None, None) => true
   | (None, None, Some o) => negb (is_param o)
   | (None, None, None) => true
@@ -30,9 +30,11 @@ Definition node_keys (n : mnode) : list string := map fst (m_params n) ++ map fs
 Definition wf_nodeb (n : mnode) : bool := forallb (fun k => wfcb (m_custom n) (slot3 n k)) (node_keys n).
 Definition wf_heapb (h : heap) : bool := forallb (fun e => wf_nodeb (snd e)) h.
 
+(* since the repair of D131 a regular module accepts any tensor under any of its names; only the None entries of a
+   custom-__setattr__ module must not be addressed *)
 Definition ok3b (cu : bool) (s : slot3_t) (x : obj) : bool :=
   if cu then negb (match fst3 s with Some None => true | _ => false end) && negb (match snd3 s with Some None => true | _ => false end)
-  else match snd3 s with None => true | Some _ => negb (is_param x) end.
+  else true.
 
 Fixpoint leaves (t : ptd) : list (string * obj) :=
   match t with PTD ents =>
